@@ -428,7 +428,9 @@ func DefaultSet() *Transport {
 }
 
 func tryParsePrefixes(filepath string) (map[PrefixID]prefix, error) {
-	return nil, nil
+	// Prefix files are not supported yet. Return an empty (not nil) set: Default adds the built-in
+	// prefixes to the map it gets back.
+	return make(map[PrefixID]prefix), nil
 }
 
 func applyDefaultPrefixes() {
